@@ -231,7 +231,7 @@ pub fn check(case: &WbCase, ctx: &mut CaseCtx<'_>) -> Result<(), String> {
     let n = base.calls;
     let mut evals = 1u64;
     let mut overlapped = 0usize;
-    let kinds = [Fault::Fail, Fault::PartialThenFail(500)];
+    let kinds = [Fault::Fail, Fault::PartialThenFail(500), Fault::EffectThenFail];
     for i in 0..n {
         for f in kinds {
             let o = run(&ops, &[(i, f)]).map_err(|e| format!("put #{} failing ({:?}): {}", i, f, e))?;
